@@ -92,6 +92,17 @@ def check_ctor(kind, s):
         return f"TransformKey({s!r}, 'map') raised although {exp[0]!r} is a member" if exp else None
     if not exp or k.src is not exp[0] or not (k == TransformKey(exp[0], FrameID.MAP)):
         return f"TransformKey({s!r}, 'map').src is {k.src!r}"
+    # a key equals the pair it was built from, in whichever spelling (a registry's `pair in registry` and `registry[pair]` then agree)
+    for pair in ((s, "map"), (exp[0], FrameID.MAP), (s, FrameID.MAP), [s, "map"]):
+        try:
+            same = (k == pair)
+        except Exception as ex:
+            return f"TransformKey({s!r}, 'map') == {pair!r} raised {type(ex).__name__}: {ex}"
+        if not same:
+            return f"TransformKey({s!r}, 'map') == {pair!r} is False although the key was built from that pair"
+    other = [m for m in FrameID if m is not exp[0]][0]
+    if k == (other, FrameID.MAP) or k == (other.value.upper(), "map"):
+        return f"TransformKey({s!r}, 'map') equals a pair with another source frame"
     return None
 
 
